@@ -71,9 +71,12 @@ RECURSIVE CountR(_, _, _)
 CountR(s, j, nl) == IF j >= nl + 1 /\ s.isoR[j + 1] THEN CountR(s, j - 1, nl) ELSE j
 CalcCentre(s) == LET nl == CountL(s, 0) IN <<nl, CountR(s, s.L - 1, nl)>>
 
-\* canonicalize_(where = (wi..wj), info): the record arithmetic of lines 1158-1187
-Canon(s, wi, wj) ==
-  LET cur == IF s.rec = Calc THEN CalcCentre(s) ELSE s.rec IN
+\* canonicalize_(where = (wi..wj), info): the record arithmetic of lines 1158-1187.
+\* dec: the caller is wrapped in convert_cur_orthog (a missing entry was set to None before);
+\* canonicalize itself (and the methods that call it unwrapped) default a missing entry to "calc"
+Canon(s, wi, wj, dec) ==
+  LET cur == IF s.rec = Calc \/ (s.rec = Absent /\ ~dec) THEN CalcCentre(s)
+             ELSE IF s.rec = Absent THEN None ELSE s.rec IN
   IF cur = None
   THEN [RSweep(LSweep(s, 0, wi), s.L - 1, wj) EXCEPT !.rec = <<wi, wj>>]
   ELSE LET cmin == cur[1]
@@ -86,7 +89,7 @@ Canon(s, wi, wj) ==
 
 \* swap_sites_with_compress_(i, i+1, absorb=ab): canonicalize, contract the pair, split, modify(data=) on both
 SwapAdj(s, i, ab) ==
-  LET s1 == Canon(s, i, i + 1)
+  LET s1 == Canon(s, i, i + 1, TRUE)
       s2 == Put(Put(s1, i, ab = "right", FALSE, "N"), i + 1, FALSE, ab = "left", "N")
   IN  [s2 EXCEPT !.rec = IF ab = "left" THEN <<i, i>>
                          ELSE IF ab = "right" THEN <<i + 1, i + 1>>
@@ -113,7 +116,7 @@ AutoSwap(s, i0, j0, back) ==
   LET i == Min2(i0, j0)
       j == Max2(i0, j0)
       s1 == IF i + 1 # j THEN SwapTo(s, j, i + 1, "default") ELSE s
-      s2 == Canon(s1, i, i + 1)
+      s2 == Canon(s1, i, i + 1, TRUE)
       \* gate_split with absorb='right' on (i, i+1), or absorb='left' on (i+1, i): site i is the isometric factor
       s3 == [Put(Put(s2, i, TRUE, FALSE, "N"), i + 1, FALSE, FALSE, "N") EXCEPT !.rec = <<i + 1, i + 1>>]
   IN  IF i + 1 # j /\ back THEN SwapTo(s3, i + 1, j, "default") ELSE s3
@@ -122,15 +125,15 @@ AutoSwap(s, i0, j0, back) ==
 RECURSIVE SubSweep(_, _, _, _, _)
 SubSweep(s, k, si, sf, rev) ==
   IF k > sf THEN s
-  ELSE SubSweep(IF rev THEN Put(s, k, k < sf, FALSE, IF k < sf THEN "L" ELSE "N")
-                       ELSE Put(s, k, FALSE, k > si, IF k > si THEN "R" ELSE "N"), k + 1, si, sf, rev)
+  \* (the claims set by compress_between may or may not survive the final permute_arrays: none is modelled)
+  ELSE SubSweep(IF rev THEN Put(s, k, k < sf, FALSE, "N") ELSE Put(s, k, FALSE, k > si, "N"), k + 1, si, sf, rev)
 SubMPO(s, si, sf, rev) ==
-  LET s1 == Canon(s, si, sf) IN
+  LET s1 == Canon(s, si, sf, TRUE) IN
   [SubSweep(s1, si, si, sf, rev) EXCEPT !.rec = IF rev THEN <<sf, sf>> ELSE <<si, si>>]
 
 \* compress_site(i, canonize=True)
 CompressSite(s, i) ==
-  LET s1 == Canon(s, i, i)
+  LET s1 == Canon(s, i, i, TRUE)
       s2 == IF i > 0 THEN LCompS(s1, i - 1, FALSE) ELSE s1
   IN  IF i < s.L - 1 THEN RCompS(s2, i + 1, FALSE) ELSE s2
 
@@ -147,10 +150,10 @@ DropSite(s, k) == [s EXCEPT !.L = @ - 1, !.isoL = RemoveAt(@, k + 1), !.isoR = R
 \* measure(site, remove, get, inplace)
 Measure(s, site, remove, oonly, inplace) ==
   IF oonly
-  THEN IF inplace THEN Canon(s, site, site)
-       ELSE IF "measure_outcome" \in Dev THEN [s EXCEPT !.rec = Canon(s, site, site).rec]   \* the copy is dropped
+  THEN IF inplace THEN Canon(s, site, site, TRUE)
+       ELSE IF "measure_outcome" \in Dev THEN [s EXCEPT !.rec = Canon(s, site, site, TRUE).rec]   \* the copy is dropped
        ELSE s
-  ELSE LET s1 == Put(Canon(s, site, site), site, FALSE, FALSE, "N") IN
+  ELSE LET s1 == Put(Canon(s, site, site, TRUE), site, FALSE, FALSE, "N") IN
        IF ~remove THEN s1
        ELSE IF site = s.L - 1
             THEN [DropSite(Put(s1, site - 1, FALSE, FALSE, "N"), site)
@@ -158,7 +161,7 @@ Measure(s, site, remove, oonly, inplace) ==
             ELSE DropSite(Put(s1, site + 1, FALSE, FALSE, "N"), site)    \* merged tensor takes the place of `site`
 
 \* sample_configuration(info) / sample(C, info): canonicalize(0, info=info) on a copy
-Sample(s) == IF "sample_info" \in Dev THEN [s EXCEPT !.rec = Canon(s, 0, 0).rec] ELSE s
+Sample(s) == IF "sample_info" \in Dev THEN [s EXCEPT !.rec = Canon(s, 0, 0, FALSE).rec] ELSE s
 
 \* a method without record argument, followed by the caller's update of the record
 Caller(s, s1, ev, a) == [s1 EXCEPT !.rec = CallerRecord(ev, a, s.rec, s.L)]
@@ -181,7 +184,7 @@ LeftCanonizeSite == \E i \in Sites : i < st.L - 1 /\
 RightCanonizeSite == \E i \in Sites : i > 0 /\
   LET a == [op |-> "right_canonize_site", i |-> i] IN Step(a, Caller(st, RCS(st, i), a.op, a), None)
 Canonicalize == \E wi \in Sites, wj \in Sites : wi <= wj /\ Usable /\
-  Step([op |-> "canonicalize", wi |-> wi, wj |-> wj], Canon(st, wi, wj), None)
+  Step([op |-> "canonicalize", wi |-> wi, wj |-> wj], Canon(st, wi, wj, FALSE), None)
 \* shift_orthogonality_center(current, new): the caller passes the centre it knows
 ShiftCentre == \E new \in Sites : IsPair(st.rec) /\ Usable /\ st.rec[1] = st.rec[2] /\ new # st.rec[1] /\
   LET a == [op |-> "shift", cur |-> st.rec[1], new |-> new] IN Step(a, Caller(st, Shift(st, a.cur, new), a.op, a), None)
@@ -225,16 +228,18 @@ MeasureA == \E site \in Sites, remove \in BOOLEAN, oonly \in BOOLEAN, inplace \i
           IF oonly /\ ~inplace THEN None ELSE None)
 \* schmidt_values / entropy / schmidt_gap / singular_values / bipartite_schmidt_state: canonicalize_(i)
 BondQuery == \E i \in Sites : i > 0 /\ Usable /\
-  Step([op |-> "bond_query", i |-> i], Canon(st, i, i), <<i, i>>)
+  Step([op |-> "bond_query", i |-> i], Canon(st, i, i, TRUE), <<i, i>>)
 Magnetization == \E i \in Sites : Usable /\
-  Step([op |-> "magnetization", i |-> i], Canon(st, i, i), <<i, i>>)
+  Step([op |-> "magnetization", i |-> i], Canon(st, i, i, TRUE), <<i, i>>)
 \* partial_trace_to_dense_canonical / local_expectation_canonical(where)
 LocalCanonical == \E wi \in Sites, wj \in Sites : wi <= wj /\ Usable /\
-  Step([op |-> "local_canonical", wi |-> wi, wj |-> wj], Canon(st, wi, wj), <<wi, wj>>)
+  Step([op |-> "local_canonical", wi |-> wi, wj |-> wj], Canon(st, wi, wj, FALSE), <<wi, wj>>)
 SampleA == \E n \in {st.L}, many \in BOOLEAN : Usable /\
   Step([op |-> "sample", many |-> many], Sample(st), None)
 \* the caller drops the record (info = {}) or asks for the detector (info["cur_orthog"] = "calc")
-CallerForget == st.rec # None /\ Step([op |-> "forget"], [st EXCEPT !.rec = None], None)
+CallerForget == \E n \in {st.L}, clear \in BOOLEAN :
+  LET r == IF clear THEN Absent ELSE None IN
+  st.rec # r /\ Step([op |-> "forget", clear |-> clear], [st EXCEPT !.rec = r], None)
 CallerCalc   == st.rec # Calc /\ Step([op |-> "calc"], [st EXCEPT !.rec = Calc], None)
 
 Next == \/ LeftCanonizeSite \/ RightCanonizeSite \/ Canonicalize \/ ShiftCentre \/ Gate1 \/ GateSplit
@@ -250,7 +255,7 @@ Mixed(c, claims) ==
    flag |-> [k \in 1..L0 |-> IF ~claims THEN "N" ELSE IF k - 1 < c THEN "L" ELSE IF k - 1 > c THEN "R" ELSE "N"],
    rec |-> <<c, c>>]
 Raw == [L |-> L0, isoL |-> [k \in 1..L0 |-> FALSE], isoR |-> [k \in 1..L0 |-> FALSE],
-        flag |-> [k \in 1..L0 |-> "N"], rec |-> None]
+        flag |-> [k \in 1..L0 |-> "N"], rec |-> Absent]
 Init ==
   /\ st \in {Raw} \cup {Mixed(c, b) : c \in 0..(L0 - 1), b \in BOOLEAN}
   /\ need = None /\ depth = 0 /\ act = [op |-> "init"]
